@@ -195,187 +195,30 @@ ASSUMPTIONS = ["a Formatter is (options, sink): a field that sees the same optio
 
 
 # ------------------------------------------------------------------------------------------------------------------
-# decision half: engine L (llsym) on `FmtAttribute::transparent_call` itself (vf/llsym/rust/tc/probe_tc.rs)
-#
-# Which attributes are "one bare placeholder referring to its only argument / to a field by name" is decided by one function.  It is cut
-# verbatim out of impl/src/fmt/mod.rs, run on a symbolic literal x every argument form below, and compared with the documented rule
-# restated over std's own reading of the literal (the pinned oracle of C03).
+# decision half: engine L (llsym) on `FmtAttribute::transparent_call` itself - see vf/props/tcall.py and DESIGN.md 10.10
 
 TC_FAIL = {1: "the documented rule says delegate, the derive formats through write!",
            2: "the documented rule says do not delegate (not one bare placeholder, a modifier, no such argument, or std rejects literal / arguments), the derive delegates",
            3: "delegates to a different expression than the rule selects", 4: "delegates under a different trait"}
-TC_ALPHABET = "{}:.*$01ab ?x<+#-^ep"
-TC_N = {"quick": 4, "thorough": 6}
-TC_DEEP = "{}:01ab ?x"
-TC_DEEP_N = {"quick": 6, "thorough": 8}
 
 
-def tc_cfg(*args):
-    """args: (alias name or None, expression is a single identifier?, its name)"""
-    c = len(args)
-    for k, (alias, isid, name) in enumerate(args):
-        a = (1 if alias is not None else 0) | ((1 if alias == "b" else 0) << 1) | ((1 if isid else 0) << 2) | ((1 if name == "b" else 0) << 3)
-        c |= a << (2 + 4 * k)
-    return c
-
-
-TC_FORMS = [("no arguments", tc_cfg()), ("one identifier argument `a`", tc_cfg((None, True, "a"))), ("one expression argument", tc_cfg((None, False, "a"))),
-            ("`a = <ident b>`", tc_cfg(("a", True, "b"))), ("`b = <expr>`", tc_cfg(("b", False, "a"))),
-            ("two arguments `a, b`", tc_cfg((None, True, "a"), (None, True, "b"))), ("`a = <expr>, b`", tc_cfg(("a", False, "a"), (None, True, "b")))]
-
-
-def tc_args_text(cfg):
-    out = []
-    for k in range(cfg & 3):
-        a = (cfg >> (2 + 4 * k)) & 15
-        e = ("ab"[(a >> 3) & 1]) if a & 4 else "x.y()"
-        out.append((("ab"[(a >> 1) & 1] + " = ") if a & 1 else "") + e)
-    return ", ".join(out)
+def _classify(code, lit, cfg):
+    import re
+    if code == 2 and re.fullmatch(r"\{0*[1-9][0-9]*\s*(:[?xXobeEp]?)?\s*\}", lit) and (cfg & 3) == 1:
+        return "index-beyond-the-only-argument"
+    if code == 1 and re.fullmatch(r"\{[^{}:]*:\.[?xXobeEp]?\s*\}", lit):
+        # the open C03 finding seen from here: std reads `{:.}` as "precision implied", the parser returns None, nothing is delegated
+        return "dot-without-precision"
+    return "other"
 
 
 def extra_pass(tier, kf):
-    import json
-    import multiprocessing
-    import os
-    import time
-    import z3
-    from .. import common
-    from ..common import log
-    from ..llsym import build, driver, native
-    from ..llsym import engine as E
-    out = {"violations": [], "known": [], "inconclusive": [], "coverage": {}}
-    t0 = time.time()
-    scratch = common.scratch_dir("C05-decision")
-    try:
-        b = build.build_tc_wrapper(scratch)
-    except RuntimeError as e:
-        out["inconclusive"].append("decision-half wrapper does not build: " + str(e)[-800:])
-        return out
-    mod = E.Module(b["ll"])
-    recs, per = [], {}
-    jobs = [(n, TC_ALPHABET) for n in range(0, TC_N[tier] + 1)] + [(n, TC_DEEP) for n in range(TC_N[tier] + 1, TC_DEEP_N[tier] + 1)]
-    for fname, cfg in TC_FORMS:
-        for n, alpha in jobs:
-            outdir = os.path.join(scratch, "paths-%d-%d" % (cfg, n))
-            os.makedirs(outdir)
-            ex = driver.ParallelExec(mod, outdir, multiprocessing.Semaphore(common.NCPU - 1), max_steps=400000 * (n + 2))
-            bs = [z3.BitVec("b%d" % i, 8) for i in range(n)]
-
-            def setup(ex, st, n=n, bs=bs, cfg=cfg, alpha=alpha):
-                buf = st.alloc(max(n, 1), "input")
-                for i in range(n):
-                    buf.data[i] = bs[i]
-                dg = st.alloc(64, "digest")
-                for i in range(64):
-                    dg.data[i] = 0
-                fr = st.frames[0]
-                names = [p[1] for p in fr.fn.params]
-                fr.regs[names[0]] = buf.base
-                fr.regs[names[1]] = n
-                fr.regs[names[2]] = dg.base
-                fr.regs[names[3]] = cfg
-                if n:
-                    st.pc.append(z3.And(*[z3.Or(*[x == ord(c) for c in alpha]) for x in bs]))
-
-            def describe(kind, detail, st, m, bs=bs, cfg=cfg):
-                inp = [m.eval(x, model_completion=True).as_long() for x in bs] if m is not None else None
-                rec = {"kind": kind, "input": inp, "cfg": cfg}
-                if kind == "ret":
-                    rv = detail
-                    if E.is_sym(rv):
-                        rv = m.eval(rv, model_completion=True).as_long()
-                    rec["code"] = rv
-                else:
-                    rec["detail"] = str(detail)[:200]
-                return rec
-            ex.describe = describe
-            ok = ex.run_parallel("@probe", setup)
-            rs, stats, solver_s = driver.collect(outdir)
-            if not ok:
-                out["inconclusive"].append("a worker of the decision-half exploration died")
-            k = "%s / %d bytes" % (fname, n)
-            per[k] = {"paths": stats.get("paths", 0), "queries": stats.get("queries", 0), "solver_s": round(solver_s, 2)}
-            recs += rs
-        log("[C05] decision half, %s: %d paths so far" % (fname, len(recs)))
-    rets = [r for r in recs if r["kind"] == "ret"]
-    for r in recs:
-        if r["kind"] != "ret":
-            out["inconclusive"].append("decision-half path ended %s: %s (literal %r, args `%s`)" % (
-                r["kind"], r.get("detail"), bytes(r["input"] or []).decode("utf8", "replace"), tc_args_text(r["cfg"])))
-            break
-    # native cross-check (return code must agree): all disagreeing paths and a sample of the agreeing ones
-    fails = [r for r in rets if r["code"] != 0]
-    sample = fails + [r for r in rets if r["code"] == 0][:6000]
-    mism = 0
-    bycfg = {}
-    for r in sample:
-        bycfg.setdefault(r["cfg"], []).append(r)
-    for cfg, rs in bycfg.items():
-        nat = native.run_native(b["so"], [bytes(r["input"]) for r in rs], extra=(cfg,))
-        for r, x in zip(rs, nat):
-            r["native"] = x
-            if x.get("code") != r["code"]:
-                mism += 1
-    if mism:
-        out["inconclusive"].append("llsym and the native build disagree on %d of %d decision-half paths" % (mism, len(sample)))
-    groups = {}
-    for r in fails:
-        lit = bytes(r["input"]).decode("utf8", "replace")
-        import re
-        if r["code"] == 2 and re.fullmatch(r"\{0*[1-9][0-9]*\s*(:[?xXobeEp]?)?\s*\}", lit) and (r["cfg"] & 3) == 1:
-            cls = "index-beyond-the-only-argument"
-        elif r["code"] == 1 and re.fullmatch(r"\{[^{}:]*:\.[?xXobeEp]?\s*\}", lit):
-            # the open C03 finding seen from here: std reads `{:.}` as "precision implied", the parser returns None, nothing is delegated
-            cls = "dot-without-precision"
-        else:
-            cls = "other"
-        groups.setdefault("decision/%d/%s" % (r["code"], cls), []).append(r)
-    replay_dir = os.path.join(common.REPLAY_DIR, "C05")
-    os.makedirs(replay_dir, exist_ok=True)
-    for key, rs in sorted(groups.items()):
-        text = kf.match("C05", key)
-        r = min(rs, key=lambda r: (len(r["input"]), r["input"]))
-        lit = bytes(r["input"]).decode("utf8", "replace")
-        if text is not None:
-            out["known"].append("KNOWN-FINDING: property=C05 key=%s %s (%d paths, e.g. `#[display(%r, %s)]`)" % (key, text, len(rs), lit, tc_args_text(r["cfg"])))
-            continue
-        if not (r.get("native") and r["native"].get("code") == r["code"]):
-            out["inconclusive"].append("decision disagreement %s did not reproduce natively" % key)
-            continue
-        path = os.path.join(replay_dir, "decision_%s.json" % "".join(c if c.isalnum() else "_" for c in key)[:60])
-        json.dump({"property": "C05", "class": key, "meaning": TC_FAIL.get(r["code"]), "literal": lit, "bytes": r["input"], "cfg": r["cfg"],
-                   "arguments": tc_args_text(r["cfg"]), "user_level": "#[derive(Display)] #[display(%s%s)]" % (json.dumps(lit), (", " + tc_args_text(r["cfg"])) if r["cfg"] & 3 else ""),
-                   "native": r["native"], "paths_in_class": len(rs), "others": [bytes(x["input"]).decode("utf8", "replace") for x in rs[:10]]}, open(path, "w"), indent=1)
-        out["violations"].append((key, path, "%s: `#[display(%r%s)]` (%d paths)" % (TC_FAIL.get(r["code"]), lit, (", " + tc_args_text(r["cfg"])) if r["cfg"] & 3 else "", len(rs))))
-    out["coverage"] = {
-        "decision_half": {
-            "engine": "llsym over the LLVM IR of vf/llsym/rust/tc/probe_tc.rs: FmtAttribute::transparent_call, FmtAttribute, FmtArgument cut verbatim out of "
-                      "impl/src/fmt/mod.rs + the working-tree impl/src/fmt/parsing.rs and impl/src/parsing.rs (Expr), against syn/proc_macro2/quote stubs",
-            "functions_encoded": ["impl/src/fmt/mod.rs::FmtAttribute::transparent_call", "impl/src/fmt/parsing.rs::format (and everything it calls)",
-                                  "vf/llsym/rust/oracle.rs::reference (std's reading of the literal, pinned against rustc_parse_format)"],
-            "bounds": {"literal": "every string of <= %d bytes over `%s`, then <= %d bytes over `%s`" % (TC_N[tier], TC_ALPHABET, TC_DEEP_N[tier], TC_DEEP),
-                       "argument_forms": [f for f, _ in TC_FORMS],
-                       "outside": "longer literals, other characters, three or more arguments; what the delegated call then does with the caller's flags is the Kani half"},
-            "paths": len(recs), "paths_agreeing": len([r for r in rets if r["code"] == 0]), "paths_disagreeing": len(fails),
-            "solver_queries": sum(v["queries"] for v in per.values()), "solver_s": round(sum(v["solver_s"] for v in per.values()), 1),
-            "native_cross_check": {"paths": len(sample), "mismatches": mism}, "wall_s": round(time.time() - t0, 1),
-            "per_form_and_length": per,
-            "samples": [{"literal": bytes(r["input"]).decode("utf8", "replace"), "arguments": tc_args_text(r["cfg"]), "verdict": r["code"]} for r in (rets[-3:] + fails[:3])],
-        }
-    }
-    return out
+    from . import tcall
+    return tcall.run("C05", "probe", tcall.TC_FORMS, tier, kf, TC_FAIL, _classify, "FmtAttribute::transparent_call, FmtAttribute, FmtArgument",
+                     ["impl/src/fmt/mod.rs::FmtAttribute::transparent_call"])
 
 
 def replay_json(path):
     """./check C05 --replay <decision_*.json>"""
-    import json
-    from .. import common
-    from ..llsym import build, native
-    j = json.load(open(path))
-    b = build.build_tc_wrapper(common.scratch_dir("C05-replay"))
-    out = native.run_native(b["so"], [bytes(j["bytes"])], extra=(j["cfg"],))[0]
-    print("#[display(%r, %s)] -> native %s" % (j["literal"], j["arguments"], out))
-    if out.get("abort") or out.get("code") not in (0,):
-        print("VIOLATION property=C05 replay=%s" % path)
-        return common.EXIT_VIOLATION
-    return common.EXIT_OK
+    from . import tcall
+    return tcall.replay_json("C05", path)
